@@ -31,8 +31,9 @@ CallDepth == Data.calldepth               \* the same for the function-object fo
 VARIABLES tid, bad
 SeqSet(q) == {q[j] : j \in 1..Len(q)}
 
-Ctx    == {"if", "else", "elif", "while", "whileelse", "for", "forelse"}
-LoopBodies == {"while", "for"}
+Ctx    == {"if", "else", "elif", "while", "whileelse", "for", "forelse",
+           "if0", "else1", "while0"}       \* suites that a constant test makes dead: `if 0:` body, else of `if 1:`, `while 0:` body
+LoopBodies == {"while", "for", "while0"}
 Terms  == {"-", "ret", "brk", "cnt"}
 Before == {"none", "simple", "if", "loop"}
 After  == {"none", "simple"}
